@@ -446,6 +446,9 @@ def compare_spec(spec, case, impl_toks):
     want, acc = spec_tokens(spec, case)
     if "PANIC" in impl_toks:
         return "panic"
+    for t in impl_toks:
+        if t.startswith("FILELEN-MISMATCH"):
+            return "metadata().file_size differs from the length of the file: " + t
     if case["kind"] == "M":
         nrej = len([t for t in want if t.startswith("rej")])
         if impl_toks[:nrej + 1] != want[:nrej + 1]:
@@ -612,7 +615,7 @@ def run(chk):
             "least_keyref_first", "perturb_dup", "perturb_swap", "perturb_bigkey", "perturb_bigval", "perturb_ts",
             "op_N", "op_V", "op_S", "op_F", "op_E", "op_G"]
     stats = {k: 0 for k in keys}
-    n = 2500 if chk.tier == "quick" else 300000
+    n = 6000 if chk.tier == "quick" else 300000
     cases = load_corpus(sip_key)
     ncorpus = len(cases)
     exhaustive = 0
